@@ -383,8 +383,10 @@ def run_shard(ctx):
                 if r != rot_i:
                     # keep the rotated structure inside the field: translate its bounding box to the same corner
                     lo0 = pdbio.bbox(pdbio.move(s.entries, pdbio.ROTATIONS[rot_i], trans))[0]
-                    lo1 = pdbio.bbox(pdbio.move(s.entries, pdbio.ROTATIONS[r], (0, 0, 0)))[0]
+                    lo1, hi1 = pdbio.bbox(pdbio.move(s.entries, pdbio.ROTATIONS[r], (0, 0, 0)))
                     tr = tuple(a - b for a, b in zip(lo0, lo1))
+                    # the rotated box has its edges permuted: pull it back inside the coordinate field if needed
+                    tr = tuple(t - max(0, h + t - (pdbio.COORD_MAX - 2500)) for t, h in zip(tr, hi1))
                 case = {"pdb": s.text, "rot": r, "trans": list(tr), "layers23": layers23, "cfgspec": spec}
                 v, info = check_case(case)
                 if info.get("worst_dpka"):
